@@ -1,5 +1,6 @@
 import TaskModel.Resolve.GlobLemmas
 import TaskModel.Resolve.Table
+import TaskModel.Gen.ResolveOrder
 /-!
 # C15 — Task name resolution: exact name, then wildcard, then unique alias
 
@@ -7,7 +8,10 @@ Property theorems only; helper lemmas live in `TaskModel.Resolve.GlobLemmas`.
 The matcher is the literal one (only `*` special).  The tie to `/repo` is the
 correspondence check `resolve` (harness/resolve.go): `ast.Task.WildcardMatch` and
 `Executor.GetTask` are run on generated names/patterns/aliases over an alphabet
-with regexp metacharacters and compared with `wildcardMatch` / `resolve`.
+with regexp metacharacters and compared with `wildcardMatch` / `resolve`; `loadresolve`
+does the same over the merged tables of generated include trees.  The regenerated half:
+`Gen.ResolveOrder` (lookup order of `GetTask` / `FindMatchingTasks`, the regular
+expression `WildcardMatch` builds), pinned by `resolve_order_in_source` below.
 -/
 namespace Props.C15
 open TaskModel.Resolve
@@ -266,5 +270,27 @@ example : resolve tbl ['s','t','x'] = .found 2 [['x']] := by decide
 example : resolve tbl ['b'] = .conflict [0, 2] := by decide
 example : resolve tbl ['a','X','b'] = .notFound := by decide   -- '.' is literal
 example : wildcardMatch ['s','*','-','*'] ['s','a','-','b','-','c'] = some [['a','-','b'],['c']] := by decide
+
+/-! ## Tie to the source (regenerated every run) -/
+
+/-- **Obligation.** `GetTask` asks `FindMatchingTasks` first and takes its FIRST element;
+only when that list is empty does it scan the aliases (in table order, `Values(nil)`), more
+than one aliased task is the conflict error, none the not-found error.
+`FindMatchingTasks` tries the exact name (`Tasks.Get`) and returns at once on a hit, then
+ranges over the table in its own order (`All(nil)`: no sorter) collecting `WildcardMatch`es.
+`WildcardMatch` anchors the quoted name with `*` (and only `*`) turned into a capture group
+and demands as many groups as the name has stars.  This is the order `Resolve.resolve`
+implements (`findExact`, `findWild`, `findAliases`). -/
+theorem resolve_order_in_source :
+    TaskModel.Gen.ResolveOrder.getTask =
+      ["call:FindMatchingTasks", "if:len>0", "set:MATCH", "index:0", "return", "index:0", "range:Values(nil)",
+       "if:slices.Contains:Aliases", "if:len>1", "return:nil", "err:TaskNameConflictError", "if:len==0",
+       "call:SpellCheck", "return:nil", "err:TaskNotFoundError", "return"] ∧
+    TaskModel.Gen.ResolveOrder.findMatchingTasks =
+      ["return:nil", "call:Tasks.Get", "return", "range:All(nil)", "call:WildcardMatch", "return"] ∧
+    TaskModel.Gen.ResolveOrder.wildcardRegexp =
+      "fmt.Sprintf(\"^%s$\", strings.ReplaceAll(regexp.QuoteMeta(‹name›), `\\*`, \"(.*)\"))" ∧
+    TaskModel.Gen.ResolveOrder.wildcardMatch = ["if:len==0", "return", "if:len!=wildcardCount", "return", "return"] := by
+  decide
 
 end Props.C15
